@@ -1,6 +1,7 @@
 package zv
 
 import (
+	"sort"
 	"go/token"
 	"go/types"
 	"strconv"
@@ -142,8 +143,10 @@ func checkC13(c *Ctx) {
 					c.OK("R13.1", name, slot, r.Pos(), "returns (%s, %s) with a provably non-nil error", Desc(n), Desc(e))
 				} else if isLenOf(n, p) {
 					c.OK("R13.1", name, slot, r.Pos(), "returns (len(%s), %s): full count whatever the error", p.Name(), Desc(e))
+				} else if okP, why := c13ReturnsByPaths(fn, p); okP {
+					c.OK("R13.1", name, slot, r.Pos(), "by path exploration (helpers and the function literals handed to them inline): on every path the results are (len(%s), nil), a relay of an inner Write(%s), a full count, or carry a non-nil error", p.Name(), p.Name())
 				} else {
-					c.Bad("R13.1", name, slot, r.Pos(), "returns (%s, %s): neither (len(param),nil), nor a provably non-nil error, nor an unchanged relay of an inner Write(param)", Desc(n), Desc(e))
+					c.Bad("R13.1", name, slot, r.Pos(), "returns (%s, %s): neither (len(param),nil), nor a provably non-nil error, nor an unchanged relay of an inner Write(param) %s", Desc(n), Desc(e), why)
 				}
 			}
 		}
@@ -195,43 +198,102 @@ func checkC13(c *Ctx) {
 // Return the mutex is released (or a deferred unlock exists).
 func LockedAcross(c *Ctx, rule string, fn *ssa.Function, sel func(ssa.CallInstruction) bool, mutexSuffix string) {
 	name := fn.String()
-	held := MustHeld(fn, nil)
-	deferred := DeferredUnlocks(fn)
-	n := 0
-	heldIn := map[*ssa.Function]map[ssa.Instruction]LockSet{fn: held}
-	for _, cl := range CallsDeep(fn) {
-		if !sel(cl) {
-			continue
+	// by path exploration (helpers, and function literals handed to them, explored inline; deferred unlocks run at
+	// their function's return): every selected inner call happens while the mutex is write-held, and the mutex is
+	// released when fn returns
+	lockEv := func(ci ssa.CallInstruction, st *ConcState) string {
+		k, m := LockEvent(ci)
+		if m == "" {
+			return ""
 		}
-		if _, isDefer := cl.(*ssa.Defer); isDefer {
-			continue
-		}
-		g := cl.Parent()
-		if heldIn[g] == nil {
-			// the call sits in a helper of fn: its lockset includes what every caller of the helper holds
-			heldIn[g] = MustHeldCtx(g)
-		}
-		n++
-		ok := false
-		for m, k := range heldIn[g][cl] {
-			if strings.HasSuffix(m, mutexSuffix) && k == 1 {
-				ok = true
+		if st != nil {
+			if args := Args(ci); len(args) > 0 {
+				m = st.Desc(args[0])
 			}
 		}
-		c.Check(ok, rule, name, "held@"+FuncName(CalleeFunc(cl)), cl.Pos(), "inner call %s executes with lockset %s on every path (needs write lock on *.%s)", FuncName(CalleeFunc(cl)), heldIn[g][cl], mutexSuffix)
+		if !strings.HasSuffix(m, mutexSuffix) && !strings.HasSuffix(m, "."+strings.TrimPrefix(mutexSuffix, ".")) {
+			return ""
+		}
+		switch k {
+		case 1:
+			return "lock"
+		case -1:
+			return "unlock"
+		case 2:
+			return "rlock"
+		case -2:
+			return "runlock"
+		}
+		return ""
 	}
-	if n == 0 {
+	calleeName := map[string]string{}
+	seqs, trunc := ConcPaths(fn, ConcCfg{
+		MaxDepth: 6,
+		DeferRun: func(d *ssa.Defer, st *ConcState) string { return lockEv(d, st) },
+		Event: func(in ssa.Instruction, st *ConcState) string {
+			switch x := in.(type) {
+			case *ssa.Call:
+				if e := lockEv(x, st); e != "" {
+					return e
+				}
+				if sel(x) {
+					n := "inner:" + FuncName(CalleeFunc(x))
+					calleeName[n] = c.Pos(x.Pos())
+					return n
+				}
+			case *ssa.Return:
+				if len(st.cfg.stackDepth()) == 0 {
+					return "ret"
+				}
+			case *ssa.Panic:
+				return "panic"
+			}
+			return ""
+		},
+	})
+	if trunc || len(seqs) == 0 {
+		c.Und(rule, name, "inner-call", fn.Pos(), "path exploration incomplete (%d sequences)", len(seqs))
+		return
+	}
+	badInner := map[string][]string{}
+	var badRet []string
+	inner := map[string]bool{}
+	for _, sq := range seqs {
+		w, r := 0, 0
+		for _, t := range strings.Split(sq, " ; ") {
+			switch {
+			case t == "lock":
+				w++
+			case t == "unlock":
+				w--
+			case t == "rlock":
+				r++
+			case t == "runlock":
+				r--
+			case strings.HasPrefix(t, "inner:"):
+				inner[t] = true
+				if w != 1 {
+					badInner[t] = append(badInner[t], sq)
+				}
+			case t == "ret":
+				if w != 0 || r != 0 {
+					badRet = append(badRet, sq)
+				}
+			}
+		}
+	}
+	var names []string
+	for n := range inner {
+		names = append(names, n)
+	}
+	sort.Strings(names)
+	for _, n := range names {
+		c.Check(len(badInner[n]) == 0, rule, name, "held@"+strings.TrimPrefix(n, "inner:"), fn.Pos(), "on every path the inner call %s (at %s) executes with the mutex *%s write-held exactly once (offending: %v)", strings.TrimPrefix(n, "inner:"), calleeName[n], mutexSuffix, badInner[n])
+	}
+	if len(names) == 0 {
 		c.Bad(rule, name, "inner-call", fn.Pos(), "no inner call found to protect")
 	}
-	for k, r := range Returns(fn) {
-		rel := true
-		for m := range held[r] {
-			if strings.HasSuffix(m, mutexSuffix) && !deferred[m] {
-				rel = false
-			}
-		}
-		c.Check(rel, rule, name, "released@return#"+itoa(k+1), r.Pos(), "lockset at return is %s, deferred unlocks %v", held[r], keys(deferred))
-	}
+	c.Check(len(badRet) == 0, rule, name, "released@return", fn.Pos(), "on every path the mutex is released when the function returns (offending: %v)", badRet)
 }
 
 func keys(m map[string]bool) []string {
@@ -647,10 +709,31 @@ func c13Wrappers(c *Ctx) {
 	// lockedWriteSyncer.Sync relays
 	ls := c.Method(CorePath, "lockedWriteSyncer", "Sync")
 	if c.Anchor("R13.3", "zapcore.lockedWriteSyncer.Sync", ls != nil) {
-		for k, r := range Returns(ls) {
-			call, ok := Strip(r.Results[0]).(*ssa.Call)
-			c.Check(ok && IsCallTo(call, "(go.uber.org/zap/zapcore.WriteSyncer).Sync"), "R13.3", ls.String(), "return#"+itoa(k+1), r.Pos(), "returns the inner Sync's error unchanged (%s)", Desc(r.Results[0]))
-		}
+		// by path exploration (the result may travel through a named result assigned inside a literal run by a helper)
+		var bad []string
+		seqs, trunc := ConcPaths(ls, ConcCfg{
+			IterClosures: true, MaxIter: 2, MaxDepth: 6,
+			Event: func(in ssa.Instruction, st *ConcState) string {
+				r, ok := in.(*ssa.Return)
+				if !ok || len(r.Results) != 1 || len(st.cfg.stackDepth()) != 0 {
+					return ""
+				}
+				v := r.Results[0]
+				for k := 0; k < 16; k++ {
+					nx := st.Step(v)
+					if nx == nil {
+						break
+					}
+					v = nx
+				}
+				if call, isC := v.(*ssa.Call); isC && IsCallTo(call, "(go.uber.org/zap/zapcore.WriteSyncer).Sync") {
+					return "ret-inner"
+				}
+				bad = append(bad, st.Desc(r.Results[0]))
+				return "ret-other"
+			},
+		})
+		c.Check(!trunc && len(seqs) > 0 && len(bad) == 0, "R13.3", ls.String(), "return#1", ls.Pos(), "on every path the inner Sync's error is returned unchanged (offending: %v)", bad)
 	}
 }
 
@@ -774,4 +857,71 @@ func c13WrapOrKeep(c *Ctx, fn *ssa.Function, wrapper *types.Named, field, assert
 	}
 	c.Check(keep && len(badKeep) == 0, "R13.3", name, slotKeep, fn.Pos(), "%s (keep arm: %v)", doc, badKeep)
 	c.Check(wrap && len(badWrap) == 0, "R13.3", name, slotWrap, fn.Pos(), "%s (wrap arm: %v)", doc, badWrap)
+}
+
+// c13ReturnsByPaths: the Write contract of one writer decided on its paths - the results may travel through named
+// results assigned inside a function literal that a helper runs (s.withLock(func() { n, err = s.ws.Write(bs) })).
+func c13ReturnsByPaths(fn *ssa.Function, p *ssa.Parameter) (bool, string) {
+	resolve := func(st *ConcState, v ssa.Value) ssa.Value {
+		for k := 0; k < 16; k++ {
+			if ct, ok := v.(*ssa.ChangeType); ok {
+				v = ct.X
+				continue
+			}
+			nx := st.Step(v)
+			if nx == nil {
+				break
+			}
+			v = nx
+		}
+		return v
+	}
+	var bad []string
+	seqs, trunc := ConcPaths(fn, ConcCfg{
+		IterClosures: true, MaxIter: 2, MaxDepth: 6,
+		Event: func(in ssa.Instruction, st *ConcState) string {
+			r, ok := in.(*ssa.Return)
+			if !ok || len(r.Results) != 2 || len(st.cfg.stackDepth()) != 0 {
+				return ""
+			}
+			n, e := resolve(st, r.Results[0]), resolve(st, r.Results[1])
+			isLen := func(v ssa.Value) bool {
+				cl, ok := v.(*ssa.Call)
+				return ok && CallBuiltin(cl) == "len" && len(cl.Call.Args) == 1 && resolve(st, cl.Call.Args[0]) == ssa.Value(p)
+			}
+			if en, ok1 := n.(*ssa.Extract); ok1 {
+				if ee, ok2 := e.(*ssa.Extract); ok2 && en.Tuple == ee.Tuple && en.Index == 0 && ee.Index == 1 {
+					if cl, isC := en.Tuple.(*ssa.Call); isC {
+						if f := CalleeFunc(cl); f != nil && f.Name() == "Write" {
+							args := cl.Call.Args
+							if !cl.Call.IsInvoke() && len(args) > 0 {
+								args = args[1:]
+							}
+							if len(args) == 1 && resolve(st, args[0]) == ssa.Value(p) {
+								return "ret-ok"
+							}
+						}
+					}
+				}
+			}
+			isNil, known := st.IsNil(e)
+			switch {
+			case known && isNil && isLen(n):
+				return "ret-ok"
+			case known && !isNil:
+				return "ret-ok"
+			case isLen(n):
+				return "ret-ok"
+			}
+			bad = append(bad, st.Desc(r.Results[0])+", "+st.Desc(r.Results[1]))
+			return "ret-bad"
+		},
+	})
+	if trunc || len(seqs) == 0 {
+		return false, "(path exploration incomplete)"
+	}
+	if len(bad) > 0 {
+		return false, "(paths returning " + strings.Join(bad, " | ") + ")"
+	}
+	return true, ""
 }
